@@ -691,6 +691,24 @@ impl Scenario for C04 {
                 b.push(Step::Unwrap { blob, node, with: pw.clone(), faults: vec![], as_kind: None });
             }
         }
+        // validators evaluating token-supplied claims at the ends of the timestamp range, with every
+        // kind of leeway the verifier's own clock can bear: Ok or ClaimsError, never a panic
+        if len % 3 == 0 {
+            const MIN_NS: i128 = -377_705_023_201 * 1_000_000_000;
+            const MAX_NS: i128 = 253_402_207_200 * 1_000_000_000 + 999_999_999;
+            let now_ns = b.now_ns;
+            for (ls, lns) in [(0u64, 1u32), (1, 0), (3600, 0), (86_400 * 366, 999_999_999), (200_000_000_000, 0)] {
+                let d = ls as i128 * 1_000_000_000 + lns as i128;
+                for exp in [None, Some(MAX_NS), Some(MAX_NS - 1), Some(MAX_NS - d), Some(MAX_NS - d + 1), Some(MIN_NS), Some(MIN_NS + d - 1)] {
+                    for nbf in [None, Some(MIN_NS), Some(MIN_NS + 1), Some(MIN_NS + d), Some(MIN_NS + d - 1), Some(MAX_NS)] {
+                        let claims = crate::backend::RegSpec { iss: None, sub: None, aud: None, exp: exp.map(Ns), nbf: nbf.map(Ns), iat: Some(Ns(MAX_NS)), jti: None };
+                        for v in [VSpec::TimeNowLeeway(ls, lns), VSpec::TimeAtLeeway(Ns(now_ns), ls, lns), VSpec::And(Box::new(VSpec::HasExpiry), Box::new(VSpec::TimeNowLeeway(ls, lns))), VSpec::TimeNow] {
+                            b.push(Step::Validate { validator: v, claims: claims.clone(), now_ns: Ns(now_ns), mapped: false });
+                        }
+                    }
+                }
+            }
+        }
         // re-wrapping with cost parameters taken from a parsed (attacker-written) blob: degenerate values
         // may be refused, never panic
         {
